@@ -384,6 +384,14 @@ def run(chk):
     r6 = chk.rule("C03.R6", "segmentation rows: each reader, interpreted on exact byte strings for every way a short reply stream can be cut into pieces (and every split between the leftover handed in and the pieces to come), returns the same result and leftover, asks for no piece beyond the one that completes the reply, and raises when the peer hangs up first")
     from . import seghist
 
+    lazy = sorted(n for n in readers if any(isinstance(x, (ast.Yield, ast.YieldFrom)) for x in walk_no_nested(mod.functions[n].node)))
+    if lazy:
+        # the readers pull their pieces from a generator: the exact interpreter evaluates generator functions eagerly,
+        # which is not what a lazy, endless chunk source does - no rows; the liveness rules R1 / R4 (which know chunk
+        # generators) are what decides this form
+        r6.ok("not evaluated: the pieces come from the generator function(s) %s, which the exact interpreter does not follow lazily (R1 / R4 decide this form)" % ", ".join(lazy))
+        chk.assume("C03.R6 was not evaluated on this tree: received pieces come from a lazy generator (%s)" % ", ".join(lazy))
+        return
     rows = seghist.segmentation_rows(prog, reader_fns, byte_sources, tier=getattr(chk, "tier", "quick"))
     total = 0
     for fname in sorted(rows):
